@@ -8,22 +8,22 @@ replay = base.s_replay
 
 def run(tier):
     if tier == "quick":
-        jobs = [chrun.SJob("vlib.sh.c10", "c10", base.parts(195), 600,
-                           what="Select on an untyped dataset with every root form x every child form in one operand position (13 x 13 forms: leaf, unary -, not, "
+        jobs = [chrun.SJob("vlib.sh.c10", "c10", base.parts(130), 600,
+                           what="Select on an untyped dataset with every root form x 8 representative child forms (leaf, unary, comparison, tuple, dict, call, subscript, nested lambda) in one operand position (13 forms: leaf, unary -, not, "
                                 "binary op, comparison, and/or, conditional, tuple/list, dict, call with positional+keyword arguments / receiver / function, "
                                 "subscript incl. tuple and dict literals, attribute incl. dict literal, nested lambda re-using or not the outer parameter) x operand "
-                                "position x operator variants; all 7 leaf kinds directly under each root form, the attribute leaf under other child forms; SelectMany and Where with the 13 root forms over leaves; names from a pool of 3 incl. "
+                                "position x operator variants; all 7 leaf kinds directly under each root form, the attribute leaf under other child forms; SelectMany and Where with the 13 root forms over leaves; names from a pool of 2 incl. "
                                 "names meaningful to ast objects; symbolic: the chooser's decisions (solver-split), integer constants (unbounded where no refusal "
                                 "message renders them, one digit otherwise), dict key string (any str len<=2, or a 4-entry table where rendered), tuple index in [-3,3]; "
                                 "oracle: emitted lambda structurally identical to the input; ValueError only for the designed refusals recognised from the input shape")]
     else:
-        jobs = [chrun.SJob("vlib.sh.c10", "c10t", base.parts(533), 1500,
-                           what="as quick with all three operators over every (root, child) pair, all 7 leaf kinds under every child form, name pool of 15, key strings len<=3, tuple index in [-4,4]")]
+        jobs = [chrun.SJob("vlib.sh.c10", "c10t", base.parts(195), 1500,
+                           what="every root form x every child form (13 x 13), all operator variants, all 7 leaf kinds under every child form, name pool of 6; SelectMany / Where over the 13 roots")]
     r, so = base.run_s(PROP, tier, "other", jobs,
                        explanation="bounded symbolic execution (CrossHair/z3) of ObjectStream.Select/SelectMany/Where on an untyped stream over a solver-split expression grammar",
                        functions=["func_adl.object_stream.ObjectStream.Select/SelectMany/Where", "func_adl.util_ast.parse_as_ast/check_ast", "func_adl.ast.syntatic_sugar.resolve_syntatic_sugar",
                                   "func_adl.type_based_replacement.remap_from_lambda/remap_by_types (type_transformer.visit_*)"],
-                       bounds={"expression_depth": 2, "forms": 13, "leaf_kinds": 7, "name_pool": 3 if tier == "quick" else 15, "tuple_index": [-3, 3] if tier == "quick" else [-4, 4]},
+                       bounds={"expression_depth": 2, "forms": 13, "leaf_kinds": 7, "name_pool": 2 if tier == "quick" else 6, "tuple_index": [-3, 3]},
                        extra_assumptions=["logging is disabled in the worker (CrossHair's symbolic clock makes LogRecord creation fork); message formatting of symbolic numbers/ast nodes is stubbed",
                                           "a constant index of another type than int into a tuple literal ((a,b)['x']) is outside the grammar"],
                        not_traced=["clone of the input lambda and the structural walk of the comparison (leaves compared under tracing)"])
